@@ -85,8 +85,11 @@ def buildRoutes (p : PProject) : Option (List SRoute) :=
     (reduceController c.name c.annots p.defaultSecurity ms).map fun rc =>
       rc.routes.map fun r =>
         let m := (ms.find? (·.name = r.opId)).getD default
+        let raw := ((c.methods.find? (·.m.name = r.opId)).map (·.raw)).getD Json.null
         { ctrl := c.name, ctrlPath := rc.path, r := r,
-          infos := r.params.map fun rp => ⟨rp, ((m.params.find? (·.name = rp.name)).map (·.type)).getD ""⟩ }
+          infos := r.params.map fun rp => ⟨rp, ((m.params.find? (·.name = rp.name)).map (·.type)).getD ""⟩,
+          setStatus := (match (jnat raw "setStatus").toOption with | some 0 => none | o => o),
+          fails := jboolD raw "fail" }
   if rs.any Option.isNone then none else some (rs.filterMap id).flatten
 
 def checkLine (c : Check) : String := "auth " ++ c.scheme ++ "[" ++ " ".intercalate c.scopes ++ "]"
@@ -175,7 +178,11 @@ def checkRig (prop : String) (input : Json) (impl : Json) : PropOut := Id.run do
       let returnsItem := match findRoute routes r with
         | some (sr, _) => p.controllers.any fun c => c.methods.any fun pm => c.name = sr.ctrl && pm.m.name = sr.r.opId && pm.m.results.head? = some "Item"
         | none => false
-      let want := if validateResp && returnsItem && want0.1 = "200" then ("500", want0.2) else want0
+      -- (whatever status the operation set itself; a FAILED operation is answered before the payload is looked at)
+      let calledOk := match serve enums routes r, findRoute routes r with
+        | .called .., some (sr, _) => !sr.fails
+        | _, _ => false
+      let want := if validateResp && returnsItem && calledOk then ("500", want0.2) else want0
       notes := notes ++ ["d:kind-" ++ (kind.splitOn ":").headD kind, "d:expect-" ++ want.1]
       let encodedPath := ((jstrD rq "path").splitOn "?").headD "" |>.any (· = '%')
       let emptyHeader := r.headers.any fun (_, v) => v.isEmpty
